@@ -296,6 +296,47 @@ class RandomDraw(InstructionGenerator):
         return self, tuple(out)
 
 
+class SeatAware(InstructionGenerator):
+    """a user-written dispatcher built on hive's own assignment helper (assignment_ops.find_assignment): idle vehicles are paired
+    with waiting requests by grid distance, and a pairing is ruled out with an infinite cost (which find_assignment documents)
+    when the party is too large for the vehicle - even-numbered vehicles seat two. Stateless: a pure function of the state."""
+
+    @property
+    def name(self) -> str:
+        return "SeatAware"
+
+    def generate_instructions(self, sim, env):
+        import h3
+        from nrel.hive.dispatcher.instruction.instructions import DispatchTripInstruction
+        from nrel.hive.dispatcher.instruction_generator.assignment_ops import find_assignment
+
+        vs = tuple(v for v in sim.get_vehicles() if type(v.vehicle_state).__name__ in ("Idle", "Repositioning"))
+        rs = tuple(r for r in sim.get_requests() if r.dispatched_vehicle is None and r.membership.grant_access_to_membership(r.membership))
+        rs = tuple(sorted(rs, key=lambda r: r.id))[:12]
+        out = []
+        if vs and rs:
+            def seats(v):
+                return 2 if sum(map(ord, v.id)) % 2 == 0 else 4
+
+            def cost(v, r):
+                if len(r.passengers) > seats(v) or not r.membership.grant_access_to_membership(v.membership):
+                    return float("inf")
+                try:
+                    return float(h3.h3_distance(v.geoid, r.geoid))
+                except Exception:
+                    return float("inf")
+
+            if all(cost(v, r) == float("inf") for v in vs for r in rs):
+                return self, ()  # (a table without a single finite cost is not something the helper accepts)
+            sol = find_assignment(vs, rs, cost)
+            by_id = {r.id: r for r in rs}
+            v_by = {v.id: v for v in vs}
+            for vid, rid in sol.solution:
+                if cost(v_by[vid], by_id[rid]) != float("inf"):
+                    out.append(DispatchTripInstruction(vid, rid))
+        return self, tuple(out)
+
+
 class Resend(InstructionGenerator):
     """a client that re-plans vehicles under way: with probability p it repeats the current dispatch of a vehicle that is
     travelling to a request (same vehicle, same request). It never creates a pairing of its own."""
@@ -403,6 +444,8 @@ def build_generators(ctrl: Dict[str, Any], env, seed: int):
             out.append(Resend(**kw))
         elif isinstance(item, dict) and "stateful" in item:
             out.append(Stateful(**item["stateful"]))
+        elif item == "SeatAware":
+            out.append(SeatAware())
         elif item == "Pending":
             out.append(Pending())
         else:
